@@ -215,7 +215,7 @@ def run(analysis: Analysis, tier: str) -> RuleResult:
     res.explanation = [
         "C14-R1: on every abstract path through Gateway.logic (all handlers, per version / family / flavour) a classified persisted mutation (sa/effects.py, derived from the JSON encoder) is followed by alert(); every path through alert() stores need_save = True unless persistence is off, including the path where the callback raised.",
         "C14-R2: every path through SyncTasks.stop / AsyncTasks.stop with persistence on cancels a pending save and then calls save_sensors exactly once, after disconnecting.",
-        "C14-R3: need_save is cleared only in save_sensors, as its last statement; the skip test reads only the flag.",
+        "C14-R3: need_save is cleared only in save_sensors - once, before the state is read, set again on every failing path, untouched by a skipped save (the C12 save-path clauses of this run); the skip test reads only the flag.",
     ]
     specs = specs_for(analysis, tier)
     recs = common.pmap(analysis, pathsum.logic_records, specs)
